@@ -17,7 +17,7 @@ RULE = (
     "build took none."
 )
 ASSUMPTIONS = ["the COLR / SVG-document evaluators of C01/C02 interpret both fonts", "allowance per DESIGN 2.4 with tau = 1.5 * t * nseg"]
-N = {"quick": 200, "thorough": 4000}
+N = {"quick": 240, "thorough": 4800}
 FORMATS = ("glyf_colr_1", "glyf_colr_1", "glyf_colr_0", "picosvg")
 
 
@@ -131,6 +131,38 @@ def tiny_copy_big_gradient_set(r, vb=1000):
     return svgs, {"inverse_scale": sc, "gradient": kind}
 
 
+def grouped_reuse_set(r, vb=100):
+    """Opacity groups whose children mix copies of an earlier outline (which the encoder places through a transform)
+    with outlines of their own, overlapping, in varying order: the z-order inside the group must not depend on which
+    children happen to be re-used."""
+    def poly(cx, cy, rad, n, a0):
+        return [(cx + rad * math.cos(a0 + 2 * math.pi * i / n), cy + rad * math.sin(a0 + 2 * math.pi * i / n)) for i in range(n)]
+
+    def d_of(pts):
+        return "M" + " L".join(f"{x:.3f},{y:.3f}" for x, y in pts) + " Z"
+
+    col = lambda: "#%02x%02x%02x" % (r.randint(0, 255), r.randint(0, 255), r.randint(0, 255))
+    n = r.randint(3, 6)
+    a0 = r.uniform(0, 6.28)
+    donor = poly(vb * 0.25, vb * 0.3, vb * 0.15, n, a0)
+    svgs = []
+    for g in range(r.randint(1, 2)):
+        kids = []
+        for k in range(r.randint(2, 4)):
+            cx, cy = vb * r.uniform(0.45, 0.7), vb * r.uniform(0.45, 0.7)
+            if r.random() < 0.5:
+                sc, ang = r.choice([0.5, 0.75, 1.0, 1.3]), r.choice([0.0, 0.0, r.uniform(-3, 3)])
+                pts = [(cx + sc * ((x - vb * 0.25) * math.cos(ang) - (y - vb * 0.3) * math.sin(ang)), cy + sc * ((x - vb * 0.25) * math.sin(ang) + (y - vb * 0.3) * math.cos(ang))) for x, y in donor]
+            else:
+                pts = poly(cx, cy, vb * r.uniform(0.08, 0.2), r.choice([m for m in (3, 4, 5, 7) if m != n]), r.uniform(0, 6.28))
+                pts = [(x * (1 + 0.3 * (i % 2)), y) for i, (x, y) in enumerate(pts)]  # irregular: congruent to nothing else
+            kids.append(f'<path d="{d_of(pts)}" fill="{col()}"/>')
+        grp = f'<g opacity="{r.choice([0.4, 0.5, 0.75])}">' + "".join(kids) + "</g>"
+        first = f'<path d="{d_of(donor)}" fill="{col()}"/>' if (g == 0 or r.random() < 0.5) else ""
+        svgs.append(f'<svg xmlns="http://www.w3.org/2000/svg" viewBox="0 0 {vb} {vb}"><defs/>{first}{grp}</svg>')
+    return svgs
+
+
 def gen_case(case):
     r = common.rng(ID, case["seed"], case["i"])
     pal = svggen.FontPalette(r)
@@ -142,7 +174,13 @@ def gen_case(case):
         cfg["clip_to_viewbox"] = False
     mode = r.random()
     meta = {"fmt": fmt}
-    if mode < 0.12:
+    if mode < 0.08:
+        svgs = grouped_reuse_set(r, r.choice([100, 128]))
+        if tol in (0.0, -1, 2.0):
+            cfg["reuse_tolerance"] = 0.1
+        cfg.pop("transform", None)
+        meta.update(mode="grouped-reuse")
+    elif mode < 0.18:
         svgs, m = tiny_copy_big_gradient_set(r, r.choice([1000, 1000, 128]))
         fmt = r.choice(["glyf_colr_1", "glyf_colr_1", "cff_colr_1", "picosvg"])
         cfg["color_format"] = fmt
@@ -152,12 +190,12 @@ def gen_case(case):
         if cfg["upem"] < 1000:
             cfg["upem"], cfg["ascender"], cfg["descender"] = 1024, 950, -250
         meta.update(mode="tiny-copy-big-gradient", fmt=fmt, **m)
-    elif mode < 0.16:
+    elif mode < 0.22:
         svgs = svggen.same_body_other_viewbox_set(r, r.randint(2, 4), pal=pal)
         if tol in (0.0, -1):
             cfg["reuse_tolerance"] = 0.1
         meta.update(mode="same-body-other-viewbox")
-    elif mode < 0.21:
+    elif mode < 0.27:
         svgs = svggen.paint_varied_reuse_set(r, r.randint(1, 3), defaults=True)
         if tol in (0.0, -1):
             cfg["reuse_tolerance"] = 0.1
@@ -165,13 +203,13 @@ def gen_case(case):
             fmt = "picosvg"  # where per-use paint attributes exist
             cfg["color_format"] = fmt
         meta.update(mode="paint-varied-reuse", fmt=fmt)
-    elif mode < 0.26:
+    elif mode < 0.32:
         vb = r.choice([128, 1000])
         em = cfg["ascender"] - cfg["descender"]
         t_ = max(tol, 0.05)
         svgs, m = tiny_donor_set(r, t_ if fmt == "picosvg" else t_ / (em / vb), vb)
         meta.update(mode="tiny-donor-huge-near-miss", **m)
-    elif mode < 0.34:
+    elif mode < 0.4:
         svgs, gcfg, m = svggen.grid_recurrence_set(r, r.randint(2, 3), pal=pal)
         keep_clip = cfg["clip_to_viewbox"]
         cfg.update(gcfg)
@@ -180,21 +218,21 @@ def gen_case(case):
         if tol == 0.0:
             cfg["reuse_tolerance"] = 0.1
         meta.update(mode="grid-recurrence", transforms=m["transforms"])
-    elif mode < 0.47:
+    elif mode < 0.52:
         vb = r.choice([24, 128, 1000])
         em = cfg["ascender"] - cfg["descender"]
         svgs, m = near_miss_set(r, fmt, max(tol, 0.05), em / vb, vb)
         meta.update(mode="near-miss", **m)
-    elif mode < 0.58:
+    elif mode < 0.62:
         svgs, m = svggen.recurrence_set(r, r.randint(2, 3), pal, same_vb=True, tkinds=["bigscale", "bigscale", "uscale", "rotate"], vb_choices=(128, 1000))
         meta.update(mode="bigscale", transforms=m["transforms"])
-    elif mode < 0.65:
+    elif mode < 0.68:
         # donor first, copies at ~1/100 scale: the inverse transform for gradients leaves Fixed range
         svgs, m = svggen.recurrence_set(r, 2, pal, same_vb=True, vb_choices=(1000,))
         tiny = f"translate({r.uniform(300, 700):.1f} {r.uniform(300, 700):.1f}) scale({r.uniform(0.004, 0.02):.4f})"
         svgs[1] = svgs[1].replace('transform="', f'transform="{tiny} ', 1)
         meta.update(mode="tinyscale")
-    elif mode < 0.76:
+    elif mode < 0.78:
         svgs, m = svggen.recurrence_set(r, r.randint(2, 4), pal, same_vb=False, vb_choices=(24, 128, 1000, 4000))
         meta.update(mode="mixed-viewbox", transforms=m["transforms"])
     else:
